@@ -35,7 +35,8 @@ NumAtoms    == { Atom("num", <<"1","0">>, <<>>, <<>>, {}), Atom("num", <<"1","."
 NameAtoms   == { Atom("name", <<"R","a","t","e">>, <<>>, <<>>, {}),
                  Atom("name", <<"T","A","X","2","0","2","0">>, <<>>, <<>>, {"NameCellLike"}),
                  Atom("name", <<"T","R","U","E">>, <<>>, <<>>, {}),
-                 Atom("name", <<"Z","L'","1">>, <<>>, <<>>, {}) }                 \* L' stands for U+0141 (low byte 'A')
+                 Atom("name", <<"Z","L'","1">>, <<>>, <<>>, {}),
+                 Atom("name", <<"Q","1","S","a","l","e","s">>, <<>>, <<>>, {}) }     \* digits in the middle of a name                 \* L' stands for U+0141 (low byte 'A')
 
 Menu == (IF "ref" \in AtomKinds THEN RefAtoms ELSE {}) \cup (IF "area" \in AtomKinds THEN AreaAtoms ELSE {})
         \cup (IF "sheet" \in AtomKinds THEN SheetAtoms ELSE {}) \cup (IF "func" \in AtomKinds THEN FuncAtoms ELSE {})
@@ -78,6 +79,11 @@ AsIsOf(d) == IF ~AsIsMember(ShapeOf(grp.shape), d[1], d[2]) THEN <<>>
 SortedMembers == SetToSortSeq(Members(grp), LAMBDA a, b : a[1] < b[1] \/ (a[1] = b[1] /\ a[2] < b[2]))
 
 \* the transcribed algorithm is right outside the named deviations
+\* the as-is text is compositional over the atoms (what the partial-repair explanation relies on)
+Compositional == stage = "done" => \A d \in Members(grp) :
+   AsIsText(atoms, d[1], d[2]) = (LET RECURSIVE J(_) J(k) == IF k > Len(atoms) THEN <<>>
+                                        ELSE AsIsAtomText(atoms[k], d[1], d[2]) \o (IF k < Len(atoms) THEN <<"+">> ELSE <<>>) \o J(k + 1)
+                                  IN J(1))
 Refines == stage = "done" /\ Dev = {} => \A d \in Members(grp) : AsIsOf(d) = IdealText(atoms, d[1], d[2])
 \* every named feature really is a deviation for some offset (no vacuous names): checked per feature
 Dump == stage = "done" =>
@@ -86,7 +92,10 @@ Dump == stage = "done" =>
                                members |-> [i \in 1..Len(SortedMembers) |->
                                               [d |-> SortedMembers[i],
                                                ideal |-> IdealText(atoms, SortedMembers[i][1], SortedMembers[i][2]),
-                                               asis |-> AsIsOf(SortedMembers[i])]],
+                                               asis |-> AsIsOf(SortedMembers[i]),
+                                               parts |-> [k \in 1..Len(atoms) |->
+                                                            [ideal |-> AtomText(atoms[k], SortedMembers[i][1], SortedMembers[i][2]),
+                                                             asis |-> AsIsAtomText(atoms[k], SortedMembers[i][1], SortedMembers[i][2])]]]],
                                si |-> SiOf(grp.si),
                                second |-> [ideal |-> <<"C","4","*","2">>,
                                            asis |-> IF SecondGroupAsIsOK THEN <<"C","4","*","2">> ELSE <<>>],
